@@ -513,10 +513,20 @@ impl Inject for UserManager {
         self.table_manager = factory_data.get_actor();
         self.cache_manager = factory_data.get_actor();
         let raft_addr_route: Option<Arc<RaftAddrRouter>> = factory_data.get_bean();
+        let apply_manager: Option<Addr<crate::raft::filestore::raftapply::StateApplyManager>> =
+            factory_data.get_actor();
         ctx.run_later(Duration::from_millis(500), |act, ctx| {
             let self_addr = ctx.address();
             let table_manager = act.table_manager.clone();
             async move {
+                // 等待状态机完成启动加载(镜像+日志)后再判断用户表是否为空:
+                // 加载期间应答被挂起; 否则数据较多时会在用户记录加载前用默认密码重建(覆盖)管理员
+                if let Some(apply_manager) = &apply_manager {
+                    apply_manager
+                        .send(crate::raft::filestore::raftapply::StateApplyRequest::GetLastAppliedLog)
+                        .await
+                        .ok();
+                }
                 if let Some(raft_addr_route) = raft_addr_route {
                     if let Ok(route_res) = raft_addr_route.get_route_addr().await {
                         match route_res {
